@@ -161,11 +161,158 @@ Definition p_fut_setter_copy : list instr := set_code ++ [
   (*12*) IEnd ].
 Definition p_fut_getter : list instr := get_deref 0 ++ [ IEnd ].
 
+(* ---- scenario "ss": the event loop's cross-thread executor (common/io/SelectServer.cpp).
+   Thread 0 owns the SelectServer: starts the producers, calls RunOnce() K times (zero timeout), joins
+   the producers and destroys the SelectServer (DrainCallbacks).  Threads 1.. call Execute lim times.
+   A callback (p,i) with i < rs_p calls Execute again when it is run (re-submission from a callback).
+   Mutex 2 = m_incoming_mutex, queue 2 = m_incoming_callbacks, queue 3 = the local callbacks_to_run,
+   variable 2 = number of bytes in the wake-up pipe (m_incoming_descriptor). *)
+Definition IM := 2.  Definition INQ := 2.  Definition LOC := 3.  Definition PIPE := 2.
+Definition p_ss_main : list instr := [
+  (* 0*) IRst 0;
+  (* 1*) IBrDone 4;
+  (* 2*) ICreateI 1;
+  (* 3*) IJmp 1;
+  (* K x RunOnce(): Poll with zero timeout; the wake pipe is readable iff it holds a byte *)
+  (* 4*) IRst 1;
+  (* 5*) IBrDone 20;
+  (* 6*) ICnt;
+  (* 7*) IBrVar PIPE 0 5;
+  (* DrainAndExecute *)
+  (* 8*) IWr PIPE 0;               (* read the pipe empty *)
+  (* 9*) ILock IM;
+  (*10*) ISwap INQ LOC;
+  (*11*) IUnlock IM;
+  (* RunCallbacks *)
+  (*12*) IBrEmpty LOC 5;
+  (*13*) IPop LOC;
+  (*14*) IRunB 12;
+  (* the callback calls SelectServer::Execute *)
+  (*15*) ILock IM;
+  (*16*) IPushR INQ;
+  (*17*) IUnlock IM;
+  (*18*) IInc PIPE;
+  (*19*) IJmp 12;
+  (* join the producers *)
+  (*20*) IRst 0;
+  (*21*) IBrDone 24;
+  (*22*) IJoinI 1;
+  (*23*) IJmp 21;
+  (* ~SelectServer: DrainCallbacks *)
+  (*24*) ILock IM;
+  (*25*) IBrEmpty INQ 36;
+  (*26*) ISwap INQ LOC;
+  (*27*) IUnlock IM;
+  (*28*) IBrEmpty LOC 24;
+  (*29*) IPop LOC;
+  (*30*) IRunB 28;
+  (*31*) ILock IM;
+  (*32*) IPushR INQ;
+  (*33*) IUnlock IM;
+  (*34*) IInc PIPE;
+  (*35*) IJmp 28;
+  (*36*) IUnlock IM;
+  (*37*) IEnd ].
+Definition p_ss_producer : list instr := [
+  (* lim x SelectServer::Execute *)
+  (* 0*) IBrDone 6;
+  (* 1*) ILock IM;
+  (* 2*) IPush INQ;
+  (* 3*) IUnlock IM;
+  (* 4*) IInc PIPE;               (* m_incoming_descriptor.Send *)
+  (* 5*) IJmp 0;
+  (* 6*) IEnd ].
+
+(* ---- scenario "execre": the ExecutorThread scenario where the first rs_p callbacks of producer p call
+   Execute again from inside the callback (the case fix 04 is about: RunRemaining must not hold m_mutex).
+   Same code as p_exec_main / p_consumer with cb->Run() followed by the nested Execute; var 5 is a constant 0
+   used to reset the child sequence number.  Correspondence and lockset only (no all-schedules invariant). *)
+Definition p_exec_main_re : list instr := [
+  (* 0*) ILock TM;
+  (* 1*) IBrVar RUNNING 1 6;
+  (* 2*) ICreateI 1;
+  (* 3*) IBrVar RUNNING 1 6;
+  (* 4*) IWait TC TM;
+  (* 5*) IJmp 3;
+  (* 6*) IUnlock TM;
+  (* 7*) IRst 0;
+  (* 8*) IBrDone 11;
+  (* 9*) ICreateI 2;
+  (*10*) IJmp 8;
+  (*11*) ILock TM;
+  (*12*) ILd RUNNING;
+  (*13*) IUnlock TM;
+  (*14*) IBrReg 0 40;
+  (*15*) ILock M;
+  (*16*) IWr SHUTDOWN 1;
+  (*17*) IUnlock M;
+  (*18*) ISignal CV;
+  (*19*) ILock TM;
+  (*20*) ILd RUNNING;
+  (*21*) IUnlock TM;
+  (*22*) IBrReg 0 28;
+  (*23*) IRst 1;
+  (*24*) IJoinI 1;
+  (*25*) ILock TM;
+  (*26*) IWr RUNNING 0;
+  (*27*) IUnlock TM;
+  (*28*) ILd 5;
+  (*29*) ILock M;
+  (*30*) IBrEmpty Q 39;
+  (*31*) IPop Q;
+  (*32*) IUnlock M;
+  (*33*) IRunB 29;
+  (*34*) ILock M;
+  (*35*) IPushR Q;
+  (*36*) IUnlock M;
+  (*37*) ISignal CV;
+  (*38*) IJmp 29;
+  (*39*) IUnlock M;
+  (*40*) IRst 0;
+  (*41*) IBrDone 44;
+  (*42*) IJoinI 2;
+  (*43*) IJmp 41;
+  (*44*) ILock M;
+  (*45*) IBrEmpty Q 54;
+  (*46*) IPop Q;
+  (*47*) IUnlock M;
+  (*48*) IRunB 44;
+  (*49*) ILock M;
+  (*50*) IPushR Q;
+  (*51*) IUnlock M;
+  (*52*) ISignal CV;
+  (*53*) IJmp 44;
+  (*54*) IUnlock M;
+  (*55*) IEnd ].
+Definition p_consumer_re : list instr := [
+  (* 0*) ILock TM;
+  (* 1*) IWr RUNNING 1;
+  (* 2*) IUnlock TM;
+  (* 3*) ISignal TC;
+  (* 4*) ILock M;
+  (* 5*) IBrEmpty Q 15;
+  (* 6*) IPop Q;
+  (* 7*) IUnlock M;
+  (* 8*) IRunB 13;
+  (* 9*) ILock M;
+  (*10*) IPushR Q;
+  (*11*) IUnlock M;
+  (*12*) ISignal CV;
+  (*13*) ILock M;
+  (*14*) IJmp 5;
+  (*15*) IBrVar SHUTDOWN 1 18;
+  (*16*) IWait CV M;
+  (*17*) IJmp 5;
+  (*18*) IUnlock M;
+  (*19*) IEnd ].
+
 Definition P : programs := fun id =>
   match id with
   | 0 => p_exec_main | 1 => p_consumer | 2 => p_producer
   | 4 => p_fut_main_raw | 5 => p_fut_setter_raw
   | 6 => p_fut_main_copy | 7 => p_fut_setter_copy | 8 => p_fut_getter
+  | 10 => p_ss_main | 11 => p_ss_producer
+  | 12 => p_exec_main_re | 13 => p_consumer_re
   | _ => []
   end.
 
@@ -233,3 +380,30 @@ Definition init_fut_copy (g : nat) : state :=
               end)
     (fun x => if Nat.eqb x REF then 1 else 0)
     (fun k => match k with 0 => 1 + g | _ => 0 end).
+
+(* lims = callbacks per producer, rs = how many of each producer's first callbacks re-submit, k = RunOnce calls *)
+Definition init_ss (lims rs : list nat) (k : nat) : state :=
+  base_state (1 + length lims)
+    (fun t => match t with
+              | 0 => mk_thread 10 Fresh 0
+              | S i => if i <? length lims then mk_thread 11 NotStarted (nth i lims 0) else dummy
+              end)
+    (fun _ => 0)
+    (fun x => match x with
+              | 0 => length lims
+              | 1 => k
+              | _ => if (101 <=? x) && (x <? 101 + length lims) then nth (x - 101) rs 0 else 0
+              end).
+
+Definition init_execre (lims rs : list nat) : state :=
+  base_state (2 + length lims)
+    (fun t => match t with
+              | 0 => mk_thread 12 Fresh 0
+              | 1 => mk_thread 13 NotStarted 0
+              | S (S i) => if i <? length lims then mk_thread 2 NotStarted (nth i lims 0) else dummy
+              end)
+    (fun _ => 0)
+    (fun x => match x with
+              | 0 => length lims
+              | _ => if (102 <=? x) && (x <? 102 + length lims) then nth (x - 102) rs 0 else 0
+              end).
